@@ -10,8 +10,10 @@ dicts built by `run_history` (format documented there).
 """
 import collections
 import operator
+import os
 import pickle
 import shutil
+import sys
 import tempfile
 import threading
 
@@ -46,6 +48,9 @@ ASSUMPTIONS = [
     'handle races: the client that creates a handle (reopen / copy / unpickle) does not write through it until the other client is done; the other '
     'client\'s calls run as whole calls between two statements of the creation (a copy / unpickled handle has the default 60 s SQLite timeout, so it is '
     'never made to wait for a lock held by a parked thread); the virtual clock is frozen (Cache.__init__ retries its settings statements by sleeping)',
+    'blocks: all-or-nothing of `with d.transact():` is property C06 / the documented use of Deque.transact; here it fixes the reference: '
+    'collections.deque is left untouched by a block that raised or whose process died; a call that raises inside a block (IndexError of a pop on an '
+    'empty deque) is caught by the program inside the block, which goes on; blocks are not nested and hold no reopen / copy / pickle events',
     'concurrent clause: each Deque call is one atomic step (one write transaction of the underlying Cache, C05/C06); C11_exactly_once is stated over all interleavings of atomic append/popleft (appendleft/pop) calls with maxlen None; on every scheduled run the calls are linearised by their COMMITs and replayed through the model',
 ]
 
@@ -58,10 +63,16 @@ STREAMS = ['valid', 'malformed']
 CMP_OPS = ['eq', 'ne', 'lt', 'gt', 'le', 'ge']
 HANDLE_EVENTS = ('reopen', 'copy', 'pickle')
 MUTATING = {'append', 'appendleft', 'extend', 'extendleft', 'iadd', 'pop', 'popleft', 'setitem', 'delitem', 'rotate',
-            'reverse', 'remove', 'clear', 'set_maxlen', 'extend_failing', 'extendleft_failing', 'iadd_failing'}
+            'reverse', 'remove', 'clear', 'set_maxlen', 'extend_failing', 'extendleft_failing', 'iadd_failing', 'block', 'rotate_idiom'}
 ADDING = {'append', 'appendleft', 'extend', 'extendleft', 'iadd'}
 INDEXED = {'getitem', 'setitem', 'delitem'}
 FILE_MIN = 8            # disk_min_file_size of the 'filebacked' kind
+# values at and above the DEFAULT file threshold (32 KiB): file-backed in a plain Deque and in FanoutCache.deque / DjangoCache.deque
+BIG_VALUES = ['L' * 32768, 'm' * 40000, b'N' * 33000, ('big', 'o' * 33000)]
+# kinds 'fanout+<policy>' / 'django+<policy>': the parent FanoutCache / DjangoCache is CONSTRUCTED with that eviction policy and this
+# size limit (two shards; one shard's share is a little above the volume of an empty cache)
+POLICIES = ['least-recently-stored', 'least-recently-used', 'least-frequently-used', 'none']
+SMALL_PARENT_LIMIT = 2 * (32768 + 8192)
 FANOUT_NAME = 'q/x'
 DJANGO_NAME = 'q'
 
@@ -153,11 +164,13 @@ class Handle:
             return Deque.fromcache(c, init, maxlen=m)
         # FanoutCache.deque / DjangoCache.deque take no iterable: the initial items are extended right after creation,
         # which is what Deque.__init__ / fromcache do themselves (self._extend(iterable)).
-        if kind == 'fanout':
-            parent = diskcache.FanoutCache(self.dir, shards=2)
+        base, _, policy = kind.partition('+')
+        opts = {'eviction_policy': policy, 'size_limit': SMALL_PARENT_LIMIT} if policy else {}
+        if base == 'fanout':
+            parent = diskcache.FanoutCache(self.dir, shards=2, **opts)
             d = parent.deque(FANOUT_NAME, maxlen=m)
-        elif kind == 'django':
-            parent = _django_cache_class()(self.dir, {'SHARDS': 2})
+        elif base == 'django':
+            parent = _django_cache_class()(self.dir, dict({'SHARDS': 2}, **({'OPTIONS': opts} if opts else {})))
             d = parent.deque(DJANGO_NAME, maxlen=m)
         else:
             raise ValueError(kind)
@@ -233,6 +246,10 @@ class Handle:
 
 class Boom(Exception):
     """An exception of the caller's own, raised by a source iterable part-way."""
+
+
+class BoomBase(BaseException):
+    """An exception that is not an Exception (KeyboardInterrupt, SystemExit, GeneratorExit are of this kind)."""
 
 
 FAIL_EXC = {'Boom': Boom, 'ZeroDivisionError': ZeroDivisionError, 'KeyError': KeyError}
@@ -410,6 +427,21 @@ def apply_ref(r, op, args):
             r.q = collections.deque(q, maxlen=args[0])
         elif op == 'contains':
             return ('bool', args[0] in q)
+        elif op == 'rotate_idiom':
+            # the documented atomic rotation: take an item from one end and put it at the other
+            if args[0] > 0:
+                q.appendleft(q.pop())
+            else:
+                q.append(q.popleft())
+        elif op == 'block':
+            # `with d.transact(): <inner calls>; [raise]`: the calls see the block's own effects; a block that does not commit
+            # (exception, or the process dies before COMMIT) leaves the deque as it was
+            end, inner = args
+            saved = collections.deque(q, maxlen=q.maxlen)
+            out = [apply_ref(r, iop, iargs) for iop, iargs in inner]
+            if end != 'commit':
+                r.q = saved
+            return ('none',) if end == 'die' else ('list', out)
         elif op in HANDLE_EVENTS:
             pass
         else:
@@ -427,6 +459,26 @@ def _tag_cmp(x):
 
 def _tag_int(x):
     return ('int', x) if type(x) is int else ('val', x)
+
+
+def die_block(h, inner):
+    """`with d.transact(): <inner calls>` in another process (own handle of the same kind on the directory) that dies inside the
+    block, before its COMMIT.  The handle of this process is closed before and obtained again afterwards."""
+    h.close()
+    sys.stdout.flush()
+    sys.stderr.flush()
+    pid = os.fork()
+    if pid == 0:
+        try:
+            h2 = Handle(h.kind, h.dir, h.maxlen, [])
+            with h2.d.transact():
+                for iop, iargs in inner:
+                    apply_impl(h2, iop, iargs)
+                os._exit(0)
+        finally:
+            os._exit(1)
+    os.waitpid(pid, 0)
+    h.d = h._open([])
 
 
 def apply_impl(h, op, args):
@@ -489,6 +541,28 @@ def apply_impl(h, op, args):
             h.maxlen = args[0]
         elif op == 'contains':
             return ('bool', args[0] in d), None
+        elif op == 'rotate_idiom':
+            if args[0] > 0:
+                d.appendleft(d.pop())
+            else:
+                d.append(d.popleft())
+        elif op == 'block':
+            end, inner = args
+            if end == 'die':
+                die_block(h, inner)
+                return ('none',), None
+            out = []
+            try:
+                with d.transact():
+                    for iop, iargs in inner:
+                        out.append(apply_impl(h, iop, iargs)[0])
+                    if end == 'abort':
+                        raise Boom('the block is left by an exception')
+                    if end == 'abort_base':
+                        raise BoomBase('the block is left by an exception that is not an Exception')
+            except (Boom, BoomBase):
+                pass
+            return ('list', out), None
         elif op == 'reopen':
             h.reopen()
             if h.d.maxlen != attr_maxlen(h.maxlen):
@@ -532,7 +606,7 @@ def results_agree(exp, obs):
 
 
 def show_res(r):
-    return repr(tuple(r))
+    return crepr(tuple(r))
 
 
 # ---------------------------------------------------------------------------
@@ -590,7 +664,7 @@ def run_history(spec, ops, mkdir, stats=None, res=None):
             div = {'index': -1, 'sig': 'deque_contents_init' + ('_failing' if init_fail is not None else ''),
                    'desc': 'contents after construction from the initial iterable' +
                            ('' if init_fail is None else ' that raised %s after %d item(s)' % (init_fail[1], init_fail[0])),
-                   'expected': repr(list(r.q)), 'observed': repr(first)}
+                   'expected': crepr(list(r.q)), 'observed': crepr(first)}
         if div is None and kind == 'plain' and h.d.cache.eviction_policy != 'none':
             div = {'index': -1, 'sig': 'deque_contents_init', 'desc': 'a plain Deque must use eviction_policy none',
                    'expected': "'none'", 'observed': repr(h.d.cache.eviction_policy)}
@@ -637,7 +711,7 @@ def run_history(spec, ops, mkdir, stats=None, res=None):
                 elif cerr is not None or not same_typed_list(contents, want):
                     div = {'index': i, 'sig': 'deque_persist_' + op,
                            'desc': 'contents after %s differ from the contents before' % op,
-                           'expected': repr(want), 'observed': repr(contents) if cerr is None else 'raise ' + repr(cerr)}
+                           'expected': crepr(want), 'observed': crepr(contents) if cerr is None else 'raise ' + repr(cerr)}
                 continue
             if not agree:
                 div = {'index': i, 'sig': ('deque_type_' if type_only else 'deque_result_') + op,
@@ -646,13 +720,13 @@ def run_history(spec, ops, mkdir, stats=None, res=None):
                        'expected': show_res(exp), 'observed': show_res(obs)}
             elif cerr is not None:
                 div = {'index': i, 'sig': 'deque_contents_' + op, 'desc': 'list(d) raised after %s' % op,
-                       'expected': repr(want), 'observed': 'raise ' + repr(cerr)}
+                       'expected': crepr(want), 'observed': 'raise ' + repr(cerr)}
             elif not same_typed_list(contents, want):
                 type_only = loose_equal_list(contents, want)
                 div = {'index': i, 'sig': ('deque_type_' if type_only else 'deque_contents_') + op,
                        'desc': ('after %s an element has another type than was stored' if type_only else
                                 'contents after %s differ from collections.deque') % op,
-                       'expected': repr(want), 'observed': repr(contents)}
+                       'expected': crepr(want), 'observed': crepr(contents)}
     finally:
         if cont is not None:
             cont.__exit__(None, None, None)
@@ -875,10 +949,24 @@ def gen_history(rng, hid, kind, stream):
 # violations: shrinking and cases
 
 
+def crepr(x):
+    """repr, except that long runs of one character are written as a product (still evaluable by unrepr): 'L' * 32768"""
+    s = repr(x)
+    if len(s) < 400:
+        return s
+    if isinstance(x, (str, bytes)) and len(set(x)) == 1:
+        return '%r * %d' % (x[:1], len(x))
+    if type(x) is tuple:
+        return '(' + ', '.join(crepr(y) for y in x) + (',)' if len(x) == 1 else ')')
+    if type(x) is list:
+        return '[' + ', '.join(crepr(y) for y in x) + ']'
+    return s
+
+
 def case_of(spec, ops, div):
     return {'check': 'deque_history', 'kind': spec['kind'], 'stream': spec.get('stream'), 'maxlen': spec['maxlen'],
-            'init': [repr(v) for v in spec['init']],
-            'ops': [[op, [repr(a) for a in args]] for op, args in ops],
+            'init': [crepr(v) for v in spec['init']],
+            'ops': [[op, [crepr(a) for a in args]] for op, args in ops],
             'failing_op': (ops[div['index']][0] if 0 <= div['index'] < len(ops) else 'init'),
             'init_fail': spec.get('init_fail'), 'contend': spec.get('contend'),
             'sig': div['sig'], 'expected': div['expected'], 'observed': div['observed']}
@@ -1047,9 +1135,127 @@ def extra_histories(ctx, res, stats, nfailing, ncontended, first_id=200000):
             report_divergence(res, stats, spec, ops, div, mkdir)
 
 
+# ---------------------------------------------------------------------------
+# blocks that do not commit; deques of parents configured to evict (monitor only)
+
+
+def pick_block_value(rng, kind):
+    """mostly values that live in a file for this kind of deque"""
+    if rng.random() < 0.25:
+        return rng.choice(VALUES)
+    return rng.choice(LONG_VALUES if kind == 'filebacked' else BIG_VALUES)
+
+
+def gen_inner_ops(rng, q, kind):
+    """1-4 calls for the inside of a `with d.transact():` block, generated against a scratch copy of the reference"""
+    r = Ref(q, q.maxlen)
+    out = []
+    for _ in range(rng.randint(1, 4)):
+        n = len(r.q)
+        op = weighted(rng, [('pop', 4), ('popleft', 4), ('rotate_idiom', 5), ('append', 3), ('appendleft', 3), ('setitem', 1), ('delitem', 1),
+                            ('rotate', 1), ('peek', 1), ('peekleft', 1), ('getitem', 1), ('len', 1), ('iter', 1), ('extend', 1)])
+        if op in ('append', 'appendleft'):
+            args = [pick_block_value(rng, kind)]
+        elif op == 'extend':
+            args = [[pick_block_value(rng, kind) for _ in range(rng.randint(1, 2))]]
+        elif op == 'rotate_idiom':
+            args = [rng.choice([1, -1])]
+        elif op in ('getitem', 'delitem'):
+            args = [gen_index(rng, n, True)]
+        elif op == 'setitem':
+            args = [gen_index(rng, n, True), pick_block_value(rng, kind)]
+        elif op == 'rotate':
+            args = [rng.randint(-n - 1, n + 1)]
+        else:
+            args = []
+        out.append([op, args])
+        apply_ref(r, op, args)
+    return out
+
+
+def gen_block_history(rng, hid, kind):
+    """Calls on a deque of file-backed (and a few inline) values; about half of them are `with d.transact():` blocks of 1-4 calls
+    (pops from both ends, the atomic rotation idiom pop + appendleft, appends that displace on a full bounded deque, ...) that end in
+    COMMIT, in an exception, in an exception that is not an Exception, or with the death of the process inside the block; between them
+    ordinary calls and reopen / copy / pickle events."""
+    maxlen = rng.choice([None, None, None, 3, 4, 5])
+    init = [pick_block_value(rng, kind) for _ in range(rng.randint(2, 5))]
+    spec = {'id': hid, 'kind': kind, 'stream': 'blocks', 'maxlen': maxlen, 'init': init}
+    r = Ref(init, maxlen)
+    ops = []
+    for _ in range(rng.randint(5, 11)):
+        x = rng.random()
+        if x < 0.5:
+            end = rng.choice(['abort', 'abort', 'abort_base', 'die', 'die', 'commit'])
+            op, args = 'block', [end, gen_inner_ops(rng, r.q, kind)]
+        elif x < 0.65:
+            op, args = rng.choice(['reopen', 'reopen', 'pickle', 'copy']), []
+        elif x < 0.8:
+            op, args = rng.choice(['append', 'appendleft']), [pick_block_value(rng, kind)]
+        elif x < 0.9:
+            op, args = rng.choice([('getitem', [0]), ('getitem', [-1]), ('iter', []), ('len', []), ('peek', []), ('peekleft', [])])
+        else:
+            op, args = rng.choice([('pop', []), ('popleft', []), ('rotate_idiom', [1]), ('rotate', [1])])
+        ops.append((op, args))
+        apply_ref(r, op, args)
+    ops.append(('reopen', []))
+    ops.append(('iter', []))
+    return spec, ops
+
+
+def gen_evicting_parent_history(rng, hid, kind):
+    """A Deque obtained from a FanoutCache / DjangoCache that was constructed with an eviction policy and a small size limit, filled
+    far beyond one shard's share of that limit (inline values of 200-900 characters), read, obtained again, filled further."""
+    maxlen = rng.choice([None, None, None, 150])
+    spec = {'id': hid, 'kind': kind, 'stream': 'evicting-parent', 'maxlen': maxlen, 'init': []}
+    ops = []
+    n = 0
+
+    def vals(k):
+        nonlocal n
+        out = []
+        for _ in range(k):
+            n += 1
+            out.append(('item-%04d-' % n) + chr(97 + n % 26) * rng.choice([200, 400, 900]))
+        return out
+    for rnd in range(rng.randint(3, 4)):
+        ops.append((rng.choice(['extend', 'extend', 'extendleft', 'iadd']), [vals(rng.randint(25, 40))]))
+        for v in vals(rng.randint(1, 3)):
+            ops.append((rng.choice(['append', 'appendleft']), [v]))
+        ops.append(rng.choice([('len', []), ('getitem', [0]), ('getitem', [-1]), ('peekleft', []), ('popleft', []), ('pop', [])]))
+        if rnd == 1:
+            ops.append((rng.choice(['reopen', 'reopen', 'pickle']), []))
+    ops.append(('reopen', []))
+    ops.append(('iter', []))
+    return spec, ops
+
+
+BLOCK_KINDS = ['filebacked', 'plain', 'filebacked', 'fanout', 'filebacked', 'django']
+
+
+def block_histories(ctx, res, stats, nblocks, nevicting, first_id=400000):
+    """Monitor-only histories with their own random stream: transaction blocks that do not commit, and deques whose parent cache evicts."""
+    import random
+    rng = random.Random('C11-blocks-%d-%d' % (ctx.seed, first_id))
+    mkdir = lambda: ctx.scratch('c11b')        # noqa: E731
+    evk = ['%s+%s' % (b, p) for p in POLICIES for b in ('fanout', 'django')]
+    plan = [('blocks', BLOCK_KINDS[k % len(BLOCK_KINDS)]) for k in range(nblocks)] + [('evicting_parent', evk[k % len(evk)]) for k in range(nevicting)]
+    for k, (what, kind) in enumerate(plan):
+        hid = first_id + k
+        spec, ops = gen_block_history(rng, hid, kind) if what == 'blocks' else gen_evicting_parent_history(rng, hid, kind)
+        hist, div = run_history(spec, ops, mkdir, stats=stats, res=res)
+        stats['histories_' + what] = stats.get('histories_' + what, 0) + 1
+        for op, args in ops:
+            if op == 'block':
+                stats['blocks_' + args[0]] = stats.get('blocks_' + args[0], 0) + 1
+        if div is not None:
+            report_divergence(res, stats, spec, ops, div, mkdir)
+
+
 def publish_stats(res, stats):
     for k in ('histories_failing', 'histories_contended', 'failing_iterables', 'failing_iterables_displacing', 'contended_calls',
-              'contended_calls_that_waited', 'contended_failed_begin_attempts'):
+              'contended_calls_that_waited', 'contended_failed_begin_attempts', 'histories_blocks', 'histories_evicting_parent', 'blocks_abort',
+              'blocks_abort_base', 'blocks_die', 'blocks_commit'):
         if k in stats:
             res.extra[k] = stats[k]
     stats['histories_crossing_maxlen'] = len(stats['crossed'])
@@ -1592,7 +1798,16 @@ RULE = ('differential histories of 10-40 calls (valid and malformed streams; max
         'copy(), pickle round trip; the statements of Cache.__init__ are scheduled events) while another client appends / pops through its own handle, '
         'its calls placed as one burst or two after every i-th statement of the creation (quick: every second i); afterwards, through the new handle, the '
         'other client\'s handle and a fresh one: len(d) == number of items == what collections.deque(maxlen) holds, d[i] for i within bounds, '
-        'IndexError beyond, and further appends keep a bounded deque at its bound.')
+        'IndexError beyond, and further appends keep a bounded deque at its bound.  Blocks that do not commit (monitor only, own random stream): '
+        'histories on plain, fromcache (file threshold 8), FanoutCache.deque and DjangoCache.deque deques holding file-backed values (at and above '
+        'the file threshold of the kind: 32 KiB by default) and a few inline ones, maxlen None/3/4/5, in which about half of the calls are '
+        '`with d.transact():` blocks of 1-4 calls (pop, popleft, the documented atomic rotation pop + appendleft / popleft + append, appends that displace '
+        'on a full bounded deque, extend, setitem, delitem, rotate, reads) ending in COMMIT, in an exception, in an exception that is not an Exception, or '
+        'with the death of the process inside the block (a forked process with its own handle, os._exit before COMMIT), between ordinary calls and reopen / '
+        'copy / pickle events: inside the block every call returns what collections.deque returns, after a block that did not commit the deque is what it '
+        'was before the block (list(d), and later d[i], pops, reopen).  Evicting parents (monitor only): a Deque from FanoutCache.deque / DjangoCache.deque '
+        'of a parent CONSTRUCTED with each eviction policy and size_limit %d (two shards), filled with 80-170 inline values of 200-900 characters by '
+        'extend / extendleft / += / append, read, obtained again: nothing is lost.' % SMALL_PARENT_LIMIT)
 
 
 def bounded_concurrent(ctx, res, nrandom):
@@ -1882,6 +2097,7 @@ def run(ctx):
     histories = []
     sequential(ctx, res, 250 if ctx.quick else 2500, stats, histories)
     extra_histories(ctx, res, stats, 80 if ctx.quick else 800, 40 if ctx.quick else 400)
+    block_histories(ctx, res, stats, 60 if ctx.quick else 600, 8 if ctx.quick else 64)
     publish_stats(res, stats)
     correspondence(ctx, res, histories, 7000 if ctx.quick else 100000)
     concurrent(ctx, res, 40 if ctx.quick else 400)
@@ -1896,6 +2112,7 @@ def search(ctx, broken):
     histories = []
     sequential(ctx, res, 750, stats, histories, first_id=100000)
     extra_histories(ctx, res, stats, 240, 120, first_id=300000)
+    block_histories(ctx, res, stats, 120, 16, first_id=500000)
     concurrent(ctx, res, 120)
     bounded_concurrent(ctx, res, 400)
     handle_races(ctx, res, False)
